@@ -301,15 +301,18 @@ def run_check(prop: str, module, tier: str, seed: int, src: Sources | None = Non
     if tier == "thorough":
         # firing direction: the in-memory mutant catalogue of this property must still be detected
         from . import mutants
-        res = mutants.collect([prop])
+        res = mutants.collect([prop], patches=True)
         counts = {}
         for mid, _p, status, info in res:
             counts[status] = counts.get(status, 0) + 1
-            ctx.log(f"  mutant {mid:30s} {status:14s} {info[:110]}")
-            if status in ("MISSED", "broken", "analysis-error"):
+            if status != "silent":
+                ctx.log(f"  variant {mid:30s} {status:14s} {info[:110]}")
+            if status in ("MISSED", "broken", "analysis-error", "FALSE-ALARM"):
                 selftest_failed += 1
         ctx.extra["selftest_mutants"] = {"total": len(res), **counts,
-                                         "caught_ids": [m for m, _p, st, _i in res if st.startswith("caught")]}
+                                         "caught_ids": [m for m, _p, st, _i in res if st.startswith("caught")],
+                                         "silent_on_neutral_refactors": counts.get("silent", 0),
+                                         "skipped_ids": [m for m, _p, st, _i in res if st == "skipped"]}
     known = known_keys_for(prop)
     viol, kn = [], []
     seen = set()
